@@ -8,19 +8,10 @@
 //! idx ≡ shard (mod nshards). The journal receives the index of a case *before* it runs, so an
 //! abort-style sanitizer report (SIGABRT / ASan / Miri) can be attributed to a case.
 
-mod case;
-mod common;
-mod gen;
-mod json;
-mod monitor;
-mod oracle;
-mod pma;
-mod props;
-mod report;
-mod rng;
 
-use common::{Ctx, Mode, Tier};
-use json::J;
+use dv::common::{Ctx, Mode, Tier};
+use dv::json::J;
+use dv::{oracle, props, report};
 use std::cell::RefCell;
 use std::collections::HashMap;
 use std::io::Write;
@@ -187,6 +178,27 @@ fn main() {
                 std::process::exit(0);
             }
             std::process::exit(1);
+        }
+        "fuzz-replay" => {
+            install_panic_hook(true);
+            let path = args.get(2).cloned().unwrap_or_default();
+            let data = std::fs::read(&path).expect("harness: read artifact");
+            match dv::fuzzing::run_bytes(&data, true) {
+                None => println!("input too short"),
+                Some(o) => {
+                    println!("--- fuzz artifact {path}: property {} ---", o.property);
+                    for v in &o.violations {
+                        println!("VIOLATION-DETAIL {v}");
+                    }
+                    if let Some(p) = &o.panic {
+                        println!("VIOLATION-DETAIL panic: {p}");
+                    }
+                    if !o.violations.is_empty() || o.panic.is_some() {
+                        std::process::exit(1);
+                    }
+                    println!("no violation reproduced");
+                }
+            }
         }
         other => {
             eprintln!("unknown command {other}");
